@@ -39,7 +39,7 @@ BP = "go.dedis.ch/kyber/v4/pairing/bn256."
 bn_contracts = {BP + k: dict(writes=[0], havoc=True) for k in ["gfpMul", "gfpAdd", "gfpSub", "gfpNeg"]}
 for n in [0, 1, 63, 64, 65, 128]:
     H.append(dict(name="bn256.G1.UnmarshalBinary-len%d" % n, pkg="./pairing/bn256", files=["harness/C04/bn.go"], entry="HarnessBNUnmarshalG1", mode="bv", params={"p0": n},
-                  renames={"(*" + BP + "curvePoint).IsOnCurve": "bnStubIsOnCurve"}, contracts=bn_contracts, replay_entry="HarnessBNUnmarshalG1Replay", unwind=100,
+                  renames={"(*" + BP + "curvePoint).IsOnCurve": "bnStubIsOnCurve"}, contracts=bn_contracts, replay_entry="HarnessBNUnmarshalG1Replay", unwind=400,
                   stubs=["(*curvePoint).IsOnCurve -> recording stub with an arbitrary verdict", "gfpMul/gfpAdd/gfpSub/gfpNeg (assembly) -> writes only its output parameter, arbitrary value"],
                   functions=["bn256.(*pointG1).UnmarshalBinary", "bn256.(*gfP).Unmarshal", "bn256.montEncode", "bn256.newGFp"], bound="input length %d, arbitrary content" % n,
                   tiers=(["quick", "thorough"] if n in (0, 63, 64, 65) else ["thorough"]),
